@@ -154,7 +154,7 @@ def site_cases(ev, ctx, l, allow_multi=False, depth=0):
             if rv["k"] == "use":
                 pl = _plain_local(rv["op"])
                 if pl is not None:
-                    sub = local_cases(ev, ctx, pl, False, depth + 1)
+                    sub = local_cases(ev, ctx, pl, allow_multi, depth + 1)
             elif rv["k"] == "unop" and rv["op"] == "Not":
                 pl = _plain_local(rv["a"])
                 if pl is not None:
@@ -172,6 +172,15 @@ def site_cases(ev, ctx, l, allow_multi=False, depth=0):
                     sub = local_cases(ev, ctx, pl, False, depth + 1)
                     if sub is not None:
                         sub = [({"Some": "Continue", "None": "Break"}.get(K, K), fs, None) for (K, fs, v) in sub]
+            if sub is None and model == "Option::filter" and len(payload["args"]) == 2:
+                # Some(x) exactly when the receiver is Some(x) and the predicate holds for x
+                recv = ev.operand(ctx, payload["args"][0])
+                clo = ev.operand(ctx, payload["args"][1])
+                pay = ev.payload(ctx, recv)
+                cond = ev.closure_ret(ctx, clo, [("ref", pay)])
+                v = ev.call(ctx, bb, payload)
+                sub = [("Some", [("is_some", unref(recv), True)] + bool_facts(cond, True),
+                        ("agg", "std::option::Option::Some", (pay,))), ("None", [], v)]
             if sub is None:
                 nctx = ev.callee_ctx(ctx, bb)
                 if nctx is not None:
@@ -361,9 +370,13 @@ def block_facts(ev, ctx, bb, unwind=False):
                     out.extend(bool_facts(c, bool(t["expected"])))
     # antisymmetry: a <= b and b <= a give a == b (`while a > b {..}; if a < b {return}` leaves a == b)
     les = [(f[1], f[2]) for f in out if f[0] == "le" and len(f) == 3]
+    nes = [(f[1], f[2]) for f in out if f[0] == "ne" and len(f) == 3]
     for (a, b) in les:
         if (b, a) in les and ("eq", a, b) not in out and ("eq", b, a) not in out:
             out.append(("eq", a, b))
+        # a <= b and a != b give a < b (`match a.cmp(&b) { Equal => .., _ => .. }` after `a <= b` is known)
+        if ((a, b) in nes or (b, a) in nes) and ("lt", a, b) not in out:
+            out.append(("lt", a, b))
     if not getattr(ev, "_inprogress", None):
         ctx.memo[key] = out  # (facts computed in the middle of a local's evaluation may contain cycle markers)
     return out
